@@ -303,10 +303,13 @@ class _R:
         for c in children:
             self.node(c, cols + w)
 
-    def meta(self, meta):
+    def meta(self, meta, inner=()):
         self.line([("META:", None)])
         w = [2, 3, 4][self.pick("indent", 3)]
-        for key, v in meta:
+        for i, (key, v) in enumerate(meta):
+            if i == 1:
+                for c in inner:
+                    self.line([(" " * w + "// " + c, None)])
             if v[0] == "metamap":
                 self.line([(" " * w + key + ":", None)])
                 w2 = [2, 3, 4][self.pick("indent", 3)]
@@ -324,17 +327,26 @@ class _R:
             self.line([])
         if d["sentinel"]:
             self.line([("OCTAVE::" + d["sentinel"], None)])
+        hc = d.get("hc") or {}
+        for c in hc.get("pre_env", ()):
+            self.line([("// " + c, None)])
         self.line([("===" + d["name"] + "===", None)])
+        for c in hc.get("pre_meta", ()):
+            self.line([("// " + c, None)])
         if d["meta"]:
-            self.meta(d["meta"])
+            self.meta(d["meta"], hc.get("meta_inner", ()))
+        for c in hc.get("post_meta", ()):
+            self.line([("// " + c, None)])
         if d["separator"]:
             self.line([("---", None)])
         for n in d["body"]:
             self.node(n, 0)
         for c in d["trailing"]:
             self.line([("// " + c, None)])
-        if self.pick("end_marker", 2) == 0:
+        if self.pick("end_marker", 2) == 0 or hc.get("post_end"):
             self.line([("===END===", None)])
+        for c in hc.get("post_end", ()):
+            self.line([("// " + c, None)])
 
 
 def render(d: dict, choices: dict | None = None, enabled: set | None = None) -> Rendered:
